@@ -5,6 +5,7 @@ CONSTANTS
   BinOps = {"add", "sub", "mul", "truediv", "mod", "pow", "lshift", "rshift", "or", "xor", "and", "floordiv", "matmul"}
   UnOps = {"neg", "pos", "invert"}
   WithStubFacts = TRUE
+  Fixed = {}
   WithGetattr = TRUE
   BugNoReflected = FALSE
 INVARIANT DiagnosedIffRaises
